@@ -243,6 +243,34 @@ def directed(ctx, sc0):
         steps.append({"name": "End"})
         out.append({"sc": sc0 + len(out), "combo": combo, "steps": steps,
                     "cfg": {"v": v, "a": a, "gop": 1, "hls": True, "fragMs": 100, "rtsp": True}})
+    # onMetaData before (and once in the middle of) the media, with an audiosamplerate that is not the RTP clock of the
+    # codec (Opus: always 48000, RFC 7587; AAC: the rate of the AudioSpecificConfig): metadata is advisory, the clock
+    # rate described to RTSP players and the RTP timestamps must agree
+    for combo, rate in (("avc_opus", 44100), ("none_opus", 24000), ("hevc_opus", 0), ("avc_aac", 22050), ("avc_g711a", 8000), ("none_opus", 48000), ("avc_g711u", 0), ("none_aac", 0)):
+        v, a = COMBOS[combo]
+        def mt(n):
+            return {"k": "meta", "ver": 0, "key": False, "cts": 0, "n": n, "nals": []}
+        steps = [{"name": "Join", "c": "t1"}, {"name": "Pub", "m": mt(rate), "ts": 0}]
+        if v != "none":
+            steps.append({"name": "Pub", "m": {"k": "vsh", "ver": 1, "key": False, "cts": 0, "n": 0, "nals": []}, "ts": 1000})
+        if a == "aac":
+            steps.append({"name": "Pub", "m": {"k": "ash", "ver": 1, "key": False, "cts": 0, "n": 0, "nals": []}, "ts": 1000})
+        t = 1000
+        for i in range(12 if v == "none" else 8):
+            if v != "none":
+                steps.append({"name": "Pub", "m": {"k": "v", "ver": 0, "key": i % 4 == 0, "cts": 0, "n": 0,
+                                                   "nals": [{"t": "idr" if i % 4 == 0 else "slice", "v": 0, "n": 80 + i}]}, "ts": t})
+            steps.append({"name": "Pub", "m": {"k": "a", "ver": 0, "key": False, "cts": 0, "n": 30 + i, "nals": []}, "ts": t + 7})
+            steps.append({"name": "Pub", "m": {"k": "a", "ver": 0, "key": False, "cts": 0, "n": 41 + i, "nals": []}, "ts": t + 27})
+            if i == 2:
+                steps.append({"name": "JoinRtsp"})
+            if i == 5:
+                steps.append({"name": "Pub", "m": mt(rate), "ts": t + 27})
+                steps.append({"name": "Join", "c": "t2"})
+            t += 40
+        steps.append({"name": "End"})
+        out.append({"sc": sc0 + len(out), "combo": combo, "steps": steps,
+                    "cfg": {"v": v, "a": a, "gop": 1, "hls": True, "fragMs": 100, "rtsp": True}})
     return out
 
 
